@@ -407,6 +407,10 @@ def plan(tier):
         for k_i, kind in enumerate(KINDS):
             if quick and (d_i + k_i) % 3 and doc not in ("basic", "holder") and not (doc in ("wildknown", "wild") and kind in ("duplicate", "retag", "inject")) and not (doc == "anytyped" and kind in ("xsitype", "text")) and not (doc == "wrapped" and kind in ("inject", "duplicate", "retag", "swap")):
                 continue
+            if doc == "temporal":
+                continue  # the date / time parsers run regular expressions on the corrupted (symbolic) values, which CrossHair cannot follow; text_fault covers the document
+            if (doc, kind) in (("shapes", "swap"),):
+                continue  # no element of this document has a sibling (would be a vacuous harness)
             if (kind in _NEEDS_PARENT and n_nodes < 3) or (kind in ("attr", "delattr") and not has_attrs):
                 continue  # fault kind not applicable to this document (would be a vacuous harness)
             lenient = ((d_i + k_i) // 2) % 4 == 3  # independent of the handler rotation: both handlers meet the lenient mode
